@@ -28,7 +28,7 @@ def tasks(tier):
     def hist(engine, rtc, s0, first, budget, values="int"):
         out.append({"kind": "history", "engine": engine, "rtc": rtc, "allow": False, "s0": s0, "first": first, "values": values,
                     "calls": 1 if quick else 2, "budget": budget, "listener": not quick and values == "int",
-                    "drop": ["before_transition"] if values == "first_none" else [],
+                    "drop": ["before_transition"] if values in ("first_none", "single_int") else [],
                     "send_events": ["go", "hop"] if quick else ["go", "hop", "tick"]})
 
     for engine in ("sync", "async"):
@@ -39,6 +39,9 @@ def tasks(tier):
             hist("async", True, 0, first, 2)
             hist("sync", True, 0, first, 1, "first_none")
             hist("async", True, 0, first, 1, "first_none")
+            hist("sync", True, 1, first, 1, "single_int")  # exactly one before/on callback: its value (also 0) is the result
+            hist("sync", False, 1, first, 1, "single_int")
+            hist("async", True, 1, first, 1, "single_int")
             for s0 in range(4):
                 hist("sync", True, s0, first, 2)
             for s0 in (0, 2):
@@ -52,6 +55,9 @@ def tasks(tier):
                 hist("sync", False, s0, first, 2)
                 hist("sync", True, s0, first, 2, "first_none")
                 hist("async", True, s0, first, 2, "first_none")
+                hist("sync", True, s0, first, 2, "single_int")
+                hist("sync", False, s0, first, 2, "single_int")
+                hist("async", True, s0, first, 2, "single_int")
     return out
 
 
@@ -88,7 +94,7 @@ def run(ctx, params):
 
 
 def run_first_fixed(ctx, p):
-    script_kw = {"budget": p["budget"], "actions": ("send",), "send_events": tuple(p["send_events"]), "values": p["values"]}
+    script_kw = {"budget": p["budget"], "actions": ("send",), "send_events": tuple(p["send_events"]), "values": "int" if p["values"] == "single_int" else p["values"]}
     first = p["events"][0]
     p2 = dict(p)
     p2["events"] = EVENTS
